@@ -78,6 +78,7 @@ func checkInvariants(m *lib.Monitor, where string, s snap, changed bool, input a
 // (plain Go bookkeeping, no Lean model involved).
 func monitorSeq(m *lib.Monitor, cfg config, seq []op, obs []stepObs) {
 	changed := false
+	activeKey := "" // the id under which the active mode was last selected (meaningful once changed)
 	for i, st := range obs {
 		o := st.Op
 		input := map[string]any{"init": cfg, "ops": seq[:i+1]}
@@ -103,6 +104,19 @@ func monitorSeq(m *lib.Monitor, cfg config, seq []op, obs []stepObs) {
 			m.Violate("C19/I3/active-mode-not-in-modes/"+k, "the active mode (once changed) does not refer to a mode that exists", input, "active id in modes", fmt.Sprintf("active id %q not in modes", st.After.Active.Id))
 		}
 		// I2: the active mode is never deleted
+		if (k == "delete" || k == "s.delete") && ok && changedBefore && o.ID == activeKey {
+			m.Violate("C19/I2/active-mode-deleted/"+k, "the delete of the mode that had been made active succeeded", input, "FailedPrecondition, mode kept", st.Out+" (active mode selected by id "+fmt.Sprintf("%q", activeKey)+")")
+		}
+		if ok {
+			switch k {
+			case "change", "s.change":
+				activeKey = o.ID
+			case "setactive":
+				activeKey = o.Mode.ID
+			case "clear", "s.clear":
+				activeKey = st.After.Active.Id
+			}
+		}
 		if k == "delete" || k == "s.delete" {
 			if o.ID == st.Before.Active.Id && st.Before.has(o.ID) && (!st.After.has(o.ID) || ok) {
 				m.Violate("C19/I2/active-mode-deleted/"+k, "the active mode was deleted (or the delete reported success)", input, "FailedPrecondition, mode kept", st.Out)
